@@ -379,3 +379,18 @@ def lindiff(a, b):
     for k, v in tb.items():
         out[k] = out.get(k, 0) - v
     return {k: v for k, v in out.items() if v != 0}, ca - cb
+
+
+def held_in(evs, upto, v, field):
+    """Is value v what field `->field` / `.field` of some object holds when event number `upto` happens on this path: a
+    read of that field, or the value the last store to it (before `upto`) put there?"""
+    t = strip_tags(APE.vstr(v))
+    if t.endswith("->" + field) or t.endswith("." + field):
+        return True
+    last = None
+    for x in evs[:upto]:
+        if x.kind == "store":
+            a = strip_tags(x.a)
+            if a.endswith("->" + field) or a.endswith("." + field):
+                last = x.b
+    return last is not None and last == v
